@@ -201,7 +201,7 @@ func ruleOPT1(c *Ctx) {
 			continue
 		}
 		callee := call.Call.StaticCallee()
-		if callee == nil || fnPkgShort(callee) != "pkg" || !strings.HasPrefix(callee.Name(), "Evaluate") || len(call.Call.Args) != 2 {
+		if callee == nil || fnPkgShort(callee) != "pkg" || !strings.HasPrefix(publicName(callee), "Evaluate") || len(call.Call.Args) != 2 {
 			continue
 		}
 		n++
@@ -236,7 +236,7 @@ func ruleOPT1(c *Ctx) {
 		}
 		callee := call.Call.StaticCallee()
 		// the 15 binary functions, or EvaluateLogicSingle whose result the && / || section leaves in the same variable
-		return callee != nil && fnPkgShort(callee) == "pkg" && strings.HasPrefix(callee.Name(), "Evaluate")
+		return callee != nil && fnPkgShort(callee) == "pkg" && strings.HasPrefix(publicName(callee), "Evaluate")
 	}
 	var leaves func(v ssa.Value, seen map[ssa.Value]bool, out *[]ssa.Value)
 	leaves = func(v ssa.Value, seen map[ssa.Value]bool, out *[]ssa.Value) {
@@ -768,7 +768,7 @@ func ruleOPT5(c *Ctx) {
 		// belongs to the decimal, hexadecimal and octal literal alike, and a value decoded from a child token loses it
 		for _, ci := range callsIn(fn) {
 			callee := ci.Common().StaticCallee()
-			if callee == nil || callee.Pkg == nil || callee.Pkg.Pkg.Path() != "strconv" || !(strings.HasPrefix(callee.Name(), "Parse") || callee.Name() == "Atoi") {
+			if callee == nil || callee.Pkg == nil || callee.Pkg.Pkg.Path() != "strconv" || !(strings.HasPrefix(publicName(callee), "Parse") || publicName(callee) == "Atoi") {
 				continue
 			}
 			textCall := asCall(ci.Common().Args[0])
@@ -785,9 +785,9 @@ func ruleOPT5(c *Ctx) {
 				}
 				ownText = unspill(rv) == ssa.Value(fn.Params[1])
 			}
-			if callee.Name() != "ParseInt" || !ownText {
+			if publicName(callee) != "ParseInt" || !ownText {
 				ok = false
-				why = "a literal is decoded by " + callee.Name() + " at " + p.InstrPos(ci.(ssa.Instruction)) + " from something other than the whole text of the literal's own context: the sign (salience -0x10, F.X == -0x1F) or the notation is lost on that path"
+				why = "a literal is decoded by " + publicName(callee) + " at " + p.InstrPos(ci.(ssa.Instruction)) + " from something other than the whole text of the literal's own context: the sign (salience -0x10, F.X == -0x1F) or the notation is lost on that path"
 			}
 		}
 		c.Check(ok, "ExitIntegerLiteral / strconv.ParseInt(text, 0, 64)", p.Pos(fn.Pos()), "base 0 (decimal, octal, hex prefixes), 64 bit, the only decoding call, on the context's own text", why)
@@ -1075,7 +1075,7 @@ func ruleOPT15(c *Ctx) {
 				if callee == nil {
 					return false
 				}
-				if f, base := fieldLoad(call.Call.Args[0]); f != nil && base == recv && strings.HasPrefix(callee.Name(), "Evaluate") {
+				if f, base := fieldLoad(call.Call.Args[0]); f != nil && base == recv && strings.HasPrefix(publicName(callee), "Evaluate") {
 					return true
 				}
 				// delegation: a helper method of the same node that itself satisfies the rule
